@@ -107,7 +107,7 @@ class HtmlGenerator(BaseScreen):
             col = 0
 
             for a, _cs, run in row:
-                t_run = run.decode(get_encoding()).translate(_trans_table)
+                t_run = run.decode(get_encoding(), "replace").translate(_trans_table)
                 if isinstance(a, AttrSpec):
                     aspec = a
                 else:
